@@ -1,55 +1,318 @@
 import PestModel.Lemmas.ValidatorNp
 /-! C06 helper lemmas, part 4: `leftRecursion … = []` makes the graph of visited rule references
-well founded. -/
+well founded. The nodes of the graph are (rule, skipping inside it) pairs; besides the rule references
+the check visits, it has the implicit `WHITESPACE`/`COMMENT` calls behind a sequence head — or behind
+the first copy of a bounded repetition — that may match nothing (where skipping is on). The name graph
+(rule references only) of an accepted grammar is acyclic as well: a cycle of names lifts to a cycle of
+pairs, because a chain of references changes the skipping flag by the identity or a constant. -/
 namespace PestModel.V
 open PestModel.G
 open PestModel.LineCol (Str)
 
-/-- edge of the left-recursion graph: `b` is looked at in the body of rule `a`. -/
+/-- a node of the left-recursion graph: a rule and whether implicit skips run inside it. -/
+abbrev Key := String × Bool
+
+/-- the pair entered for `n` from a place where skipping is `sk`. -/
+abbrev key (rules : List Rule) (sk : Bool) (n : String) : Key := (n, skipsInside rules n sk)
+
+/-- the implicit rules the grammar defines. -/
+def wsNames (rules : List Rule) : List String :=
+  (if (lookup rules "WHITESPACE").isSome then ["WHITESPACE"] else []) ++
+  (if (lookup rules "COMMENT").isSome then ["COMMENT"] else [])
+
+/-- the names `check_expr` enters in `e` (inside the body of rule `cur`, skipping `sk`), without
+entering rules: the identifiers of `lm`, plus the implicit calls. -/
+def lmS (extras : Bool) (rules : List Rule) (cur : String) (sk : Bool) : Expr → List String
+  | .ident n => [n]
+  | .seq a b =>
+    if cross rules cur a then
+      lmS extras rules cur sk a ++ ((if sk then wsNames rules else []) ++ lmS extras rules cur sk b)
+    else lmS extras rules cur sk a
+  | .choice a b => lmS extras rules cur sk a ++ lmS extras rules cur sk b
+  | .rep e | .repOnce e | .opt e | .posPred e | .negPred e | .push e => lmS extras rules cur sk e
+  | .repMin e _ => lmS extras rules cur sk e
+  | .repExact e n =>
+    lmS extras rules cur sk e ++ (if decide (2 ≤ n) && cross rules cur e && sk then wsNames rules else [])
+  | .repMax e n => lmS extras rules cur sk e ++ (if decide (2 ≤ n) && sk then wsNames rules else [])
+  | .repMinMax e lo hi =>
+    lmS extras rules cur sk e ++
+      (if decide (2 ≤ hi) && (lo == 0 || cross rules cur e) && sk then wsNames rules else [])
+  | .nodeTag e _ => if extras then lmS extras rules cur sk e else []
+  | _ => []
+
+theorem lm_sub_lmS (extras : Bool) (rules : List Rule) (cur : String) (sk : Bool) :
+    ∀ e : Expr, ∀ n ∈ lm extras rules cur e, n ∈ lmS extras rules cur sk e := by
+  intro e
+  induction e with
+  | seq a b iha ihb =>
+    intro n hn
+    simp only [lm, lmS] at hn ⊢
+    split at hn
+    · rename_i hx
+      rw [if_pos hx]
+      rcases List.mem_append.1 hn with h | h
+      · exact List.mem_append_left _ (iha n h)
+      · exact List.mem_append_right _ (List.mem_append_right _ (ihb n h))
+    · rename_i hx
+      rw [if_neg hx]
+      exact iha n hn
+  | choice a b iha ihb =>
+    intro n hn
+    simp only [lm, lmS] at hn ⊢
+    rcases List.mem_append.1 hn with h | h
+    · exact List.mem_append_left _ (iha n h)
+    · exact List.mem_append_right _ (ihb n h)
+  | rep a ih | repOnce a ih | opt a ih | posPred a ih | negPred a ih | push a ih | repMin a k ih =>
+    intro n hn
+    simp only [lm, lmS] at hn ⊢
+    exact ih n hn
+  | repExact a k ih | repMax a k ih | repMinMax a lo hi ih =>
+    intro n hn
+    simp only [lm, lmS] at hn ⊢
+    exact List.mem_append_left _ (ih n hn)
+  | nodeTag a t ih =>
+    intro n hn
+    simp only [lm, lmS] at hn ⊢
+    cases extras
+    · simp at hn
+    · simp only [if_true] at hn ⊢
+      exact ih n hn
+  | ident m => intro n hn; simpa [lm, lmS] using hn
+  | _ => intro n hn; simp [lm] at hn
+
+/-- edge of the name graph: `b` is looked at in the body of rule `a`. -/
 def E (extras : Bool) (rules : List Rule) (a b : String) : Prop :=
   ∃ body, lookup rules a = some body ∧ b ∈ lm extras rules a body
 
+/-- `n` is entered from the body of rule `a` when skipping inside `a` is `sk`. -/
+def ES (extras : Bool) (rules : List Rule) (a : String) (sk : Bool) (n : String) : Prop :=
+  ∃ body, lookup rules a = some body ∧ n ∈ lmS extras rules a sk body
+
+/-- edge of the left-recursion graph. -/
+def E2 (extras : Bool) (rules : List Rule) (a b : Key) : Prop :=
+  ∃ n, ES extras rules a.1 a.2 n ∧ b = key rules a.2 n
+
+/-! ### the fuel budget on pairs -/
+
+def rem2 : List Rule → List Key → Nat
+  | [], _ => 0
+  | r :: rs, T =>
+    (if T.contains (r.name, true) then 0 else r.expr.size + 1) +
+      (if T.contains (r.name, false) then 0 else r.expr.size + 1) + rem2 rs T
+
+theorem rem2_mono (rules : List Rule) {T T' : List Key} (h : ∀ x ∈ T, x ∈ T') : rem2 rules T' ≤ rem2 rules T := by
+  induction rules with
+  | nil => simp [rem2]
+  | cons r rs ih =>
+    simp only [rem2]
+    have key : ∀ b : Bool, (if T'.contains (r.name, b) then 0 else r.expr.size + 1) ≤
+        (if T.contains (r.name, b) then 0 else r.expr.size + 1) := by
+      intro b
+      by_cases h1 : (r.name, b) ∈ T
+      · have h2 := h _ h1
+        simp [h1, h2]
+      · by_cases h2 : (r.name, b) ∈ T'
+        · simp [h2]
+        · simp [h1, h2]
+    have := key true
+    have := key false
+    omega
+
+theorem rem2_step {rules : List Rule} {T : List Key} {n : String} {b : Bool} {body : Expr}
+    (hl : lookup rules n = some body) (hn : (n, b) ∉ T) : body.size + 1 + rem2 rules (T ++ [(n, b)]) ≤ rem2 rules T := by
+  induction rules with
+  | nil => simp [lookup] at hl
+  | cons r rs ih =>
+    simp only [rem2]
+    have hm : rem2 rs (T ++ [(n, b)]) ≤ rem2 rs T := rem2_mono rs (fun x hx => List.mem_append_left _ hx)
+    have key : ∀ b' : Bool, (if (T ++ [(n, b)]).contains (r.name, b') then 0 else r.expr.size + 1) ≤
+        (if T.contains (r.name, b') then 0 else r.expr.size + 1) := by
+      intro b'
+      by_cases h1 : (r.name, b') ∈ T
+      · simp [h1]
+      · by_cases h2 : (r.name, b') ∈ T ++ [(n, b)]
+        · simp [h2]
+        · simp [h1, h2]
+    by_cases hr : r.name = n
+    · have hb : r.expr = body := by
+        simp [lookup, hr] at hl
+        exact hl
+      subst hr
+      have h1 : (if T.contains (r.name, b) then 0 else r.expr.size + 1) = r.expr.size + 1 := by simp [hn]
+      have h2 : (if (T ++ [(r.name, b)]).contains (r.name, b) then 0 else r.expr.size + 1) = 0 := by simp
+      have k1 := key true
+      have k2 := key false
+      rw [← hb]
+      cases b <;> omega
+    · have hl' : lookup rs n = some body := by
+        simp only [lookup, List.find?_cons, hr, decide_false] at hl ⊢
+        exact hl
+      have := ih hl'
+      have k1 := key true
+      have k2 := key false
+      omega
+
+theorem rem2_le (rules : List Rule) (T : List Key) : rem2 rules T ≤ 2 * rem rules [] := by
+  induction rules with
+  | nil => simp [rem2, rem]
+  | cons r rs ih =>
+    simp only [rem2, rem]
+    have h1 : (if T.contains (r.name, true) then 0 else r.expr.size + 1) ≤ r.expr.size + 1 := by split <;> omega
+    have h2 : (if T.contains (r.name, false) then 0 else r.expr.size + 1) ≤ r.expr.size + 1 := by split <;> omega
+    have h3 : (if ([] : List String).contains r.name then 0 else r.expr.size + 1) = r.expr.size + 1 := by simp
+    rw [h3]
+    omega
+
+theorem rem2_lt_rulesSize (rules : List Rule) (T : List Key) : rem2 rules T + 2 ≤ 2 * rulesSize rules := by
+  have h1 := rem2_le rules T
+  have h2 := rem_lt_rulesSize rules []
+  omega
+
+/-! ### unfolding `checkExpr` -/
+
+/-- what `check_expr` does with a rule it is about to enter. -/
+def enterF (extras : Bool) (rules : List Rule) (G : Nat) (T : List Key) (sk : Bool) (other : String) : Bool :=
+  checkExpr extras rules (G + 1) (.ident other) T sk
+
+theorem checkExpr_ident (extras : Bool) (rules : List Rule) (G : Nat) (T : List Key) (sk : Bool) (n : String) :
+    checkExpr extras rules (G + 1) (.ident n) T sk = enterF extras rules G T sk n := rfl
+
+theorem enterF_head {extras : Bool} {rules : List Rule} {G : Nat} {T : List Key} {sk : Bool} {n : String}
+    (h : T.head? = some (n, skipsInside rules n sk)) : enterF extras rules G T sk n = true := by
+  simp [enterF, checkExpr, h]
+
+theorem enterF_step {extras : Bool} {rules : List Rule} {G : Nat} {T : List Key} {sk : Bool} {n : String} {body : Expr}
+    (hn : (n, skipsInside rules n sk) ∉ T) (hl : lookup rules n = some body) :
+    enterF extras rules G T sk n =
+      checkExpr extras rules G body (T ++ [(n, skipsInside rules n sk)]) (skipsInside rules n sk) := by
+  have hh : T.head? ≠ some (n, skipsInside rules n sk) := fun hh => hn (List.mem_of_mem_head? hh)
+  simp only [enterF, checkExpr, hh, if_false, List.contains_eq_mem, hn, decide_false, Bool.not_false, if_true, hl]
+
+/-- the implicit skip at this position. -/
+def implF (extras : Bool) (rules : List Rule) (G : Nat) (T : List Key) (sk : Bool) : Bool :=
+  sk && ((lookup rules "WHITESPACE").isSome && enterF extras rules G T sk "WHITESPACE" ||
+         (lookup rules "COMMENT").isSome && enterF extras rules G T sk "COMMENT")
+
+theorem checkExpr_seq (extras : Bool) (rules : List Rule) (G : Nat) {T : List Key} (sk : Bool) (a b : Expr)
+    {cur : String} {skc : Bool} (hT : T.getLast? = some (cur, skc)) :
+    checkExpr extras rules (G + 1) (.seq a b) T sk =
+      if cross rules cur a then
+        checkExpr extras rules G a T sk || implF extras rules G T sk || checkExpr extras rules G b T sk
+      else checkExpr extras rules G a T sk := by
+  simp only [checkExpr, enterF, implF, hT, Option.map_some, Option.toList_some, cross]
+
+theorem checkExpr_repExact (extras : Bool) (rules : List Rule) (G : Nat) {T : List Key} (sk : Bool) (e : Expr) (n : Nat)
+    {cur : String} {skc : Bool} (hT : T.getLast? = some (cur, skc)) :
+    checkExpr extras rules (G + 1) (.repExact e n) T sk =
+      (checkExpr extras rules G e T sk || (decide (2 ≤ n) && cross rules cur e && implF extras rules G T sk)) := by
+  simp only [checkExpr, enterF, implF, hT, Option.map_some, Option.toList_some, cross]
+
+theorem checkExpr_repMax (extras : Bool) (rules : List Rule) (G : Nat) (T : List Key) (sk : Bool) (e : Expr) (n : Nat) :
+    checkExpr extras rules (G + 1) (.repMax e n) T sk =
+      (checkExpr extras rules G e T sk || (decide (2 ≤ n) && implF extras rules G T sk)) := by
+  simp only [checkExpr, enterF, implF]
+
+theorem checkExpr_repMinMax (extras : Bool) (rules : List Rule) (G : Nat) {T : List Key} (sk : Bool) (e : Expr)
+    (lo hi : Nat) {cur : String} {skc : Bool} (hT : T.getLast? = some (cur, skc)) :
+    checkExpr extras rules (G + 1) (.repMinMax e lo hi) T sk =
+      (checkExpr extras rules G e T sk ||
+        (decide (2 ≤ hi) && (lo == 0 || cross rules cur e) && implF extras rules G T sk)) := by
+  simp only [checkExpr, enterF, implF, hT, Option.map_some, Option.toList_some, cross]
+
+theorem checkExpr_seq' (extras : Bool) (rules : List Rule) (G : Nat) (T : List Key) (sk : Bool) (a b : Expr) :
+    checkExpr extras rules (G + 1) (.seq a b) T sk =
+      if isNonFailing rules (fuelFor rules a) a (T.getLast?.map (·.1)).toList ||
+          isNonProgressing rules (fuelFor rules a) a (T.getLast?.map (·.1)).toList then
+        checkExpr extras rules G a T sk || implF extras rules G T sk || checkExpr extras rules G b T sk
+      else checkExpr extras rules G a T sk := by
+  simp only [checkExpr, enterF, implF]
+
+theorem checkExpr_repExact' (extras : Bool) (rules : List Rule) (G : Nat) (T : List Key) (sk : Bool) (e : Expr) (n : Nat) :
+    checkExpr extras rules (G + 1) (.repExact e n) T sk =
+      (checkExpr extras rules G e T sk ||
+        (decide (2 ≤ n) &&
+          (isNonFailing rules (fuelFor rules e) e (T.getLast?.map (·.1)).toList ||
+            isNonProgressing rules (fuelFor rules e) e (T.getLast?.map (·.1)).toList) &&
+          implF extras rules G T sk)) := by
+  simp only [checkExpr, enterF, implF]
+
+theorem checkExpr_repMinMax' (extras : Bool) (rules : List Rule) (G : Nat) (T : List Key) (sk : Bool) (e : Expr)
+    (lo hi : Nat) :
+    checkExpr extras rules (G + 1) (.repMinMax e lo hi) T sk =
+      (checkExpr extras rules G e T sk ||
+        (decide (2 ≤ hi) &&
+          (lo == 0 || (isNonFailing rules (fuelFor rules e) e (T.getLast?.map (·.1)).toList ||
+            isNonProgressing rules (fuelFor rules e) e (T.getLast?.map (·.1)).toList)) &&
+          implF extras rules G T sk)) := by
+  simp only [checkExpr, enterF, implF]
+
+theorem implF_of_mem {extras : Bool} {rules : List Rule} {G : Nat} {T : List Key} {n : String}
+    (hn : n ∈ wsNames rules) (h1 : enterF extras rules G T true n = true) : implF extras rules G T true = true := by
+  simp only [wsNames, List.mem_append] at hn
+  rcases hn with hn | hn
+  · split at hn
+    · rename_i hW
+      simp only [List.mem_singleton] at hn
+      subst hn
+      simp [implF, h1, hW]
+    · simp at hn
+  · split at hn
+    · rename_i hW
+      simp only [List.mem_singleton] at hn
+      subst hn
+      simp [implF, h1, hW]
+    · simp at hn
+
 /-- `check_expr` answers `true` with any adequate fuel. -/
-def CT (extras : Bool) (rules : List Rule) (e : Expr) (T : List String) : Prop :=
-  ∀ F, e.size + rem rules T ≤ F → checkExpr extras rules F e T = true
+def CT (extras : Bool) (rules : List Rule) (e : Expr) (T : List Key) (sk : Bool) : Prop :=
+  ∀ F, e.size + rem2 rules T ≤ F → checkExpr extras rules F e T sk = true
 
 section
 variable {extras : Bool} {rules : List Rule}
 
-theorem ct_ident_head {T : List String} {n : String} (h : T.head? = some n) : CT extras rules (.ident n) T := by
+theorem ct_ident_head {T : List Key} {n : String} {sk : Bool} (h : T.head? = some (key rules sk n)) :
+    CT extras rules (.ident n) T sk := by
   intro F hF
   obtain ⟨G, rfl⟩ : ∃ G, F = G + 1 := ⟨F - 1, by simp [Expr.size] at hF; omega⟩
-  simp [checkExpr, h]
+  rw [checkExpr_ident]
+  exact enterF_head h
 
-theorem ct_ident_step {T : List String} {n : String} {body : Expr} (hn : n ∉ T) (hl : lookup rules n = some body)
-    (h : CT extras rules body (T ++ [n])) : CT extras rules (.ident n) T := by
+theorem ct_ident_step {T : List Key} {n : String} {sk : Bool} {body : Expr} (hn : key rules sk n ∉ T)
+    (hl : lookup rules n = some body)
+    (h : CT extras rules body (T ++ [key rules sk n]) (skipsInside rules n sk)) : CT extras rules (.ident n) T sk := by
   intro F hF
   obtain ⟨G, rfl⟩ : ∃ G, F = G + 1 := ⟨F - 1, by simp [Expr.size] at hF; omega⟩
-  have hh : T.head? ≠ some n := fun hh => hn (List.mem_of_mem_head? hh)
-  have := rem_step hl hn
+  have := rem2_step hl hn
   simp only [Expr.size] at hF
-  simp only [checkExpr, hh, if_false, List.contains_eq_mem, hn, decide_false, Bool.not_false, if_true, hl]
-  exact h G (by omega)
+  rw [checkExpr_ident, enterF_step hn hl]
+  refine h G ?_
+  show body.size + rem2 rules (T ++ [(n, skipsInside rules n sk)]) ≤ G
+  omega
 
-theorem ct_sub {T : List String} {cur n : String} (hT : T.getLast? = some cur) (hc : CT extras rules (.ident n) T) :
-    ∀ e : Expr, n ∈ lm extras rules cur e → CT extras rules e T := by
+theorem ct_sub {T : List Key} {cur n : String} {skc sk : Bool} (hT : T.getLast? = some (cur, skc))
+    (hc : CT extras rules (.ident n) T sk) :
+    ∀ e : Expr, n ∈ lmS extras rules cur sk e → CT extras rules e T sk := by
   intro e
   induction e with
-  | ident m => intro hn; simp only [lm, List.mem_singleton] at hn; subst hn; exact hc
+  | ident m => intro hn; simp only [lmS, List.mem_singleton] at hn; subst hn; exact hc
   | seq a b iha ihb =>
     intro hn F hF
     obtain ⟨G, rfl⟩ : ∃ G, F = G + 1 := ⟨F - 1, by simp [Expr.size] at hF; omega⟩
     simp only [Expr.size] at hF
-    simp only [lm] at hn
-    simp only [checkExpr, hT, Option.toList_some]
-    have hcr : (isNonFailing rules (fuelFor rules a) a [cur] || isNonProgressing rules (fuelFor rules a) a [cur]) =
-        cross rules cur a := rfl
-    rw [hcr]
+    simp only [lmS] at hn
+    rw [checkExpr_seq extras rules G sk a b hT]
     cases hx : cross rules cur a with
     | true =>
       simp only [hx, if_true, List.mem_append] at hn ⊢
-      rcases hn with hn | hn
+      rcases hn with hn | hn | hn
       · simp [iha hn G (by omega)]
+      · cases sk with
+        | false => simp at hn
+        | true =>
+          simp only [if_true] at hn
+          have h1 := hc (G + 1) (by simp only [Expr.size]; omega)
+          rw [checkExpr_ident] at h1
+          simp [implF_of_mem hn h1]
       · simp [ihb hn G (by omega)]
     | false =>
       simp only [hx, Bool.false_eq_true, if_false] at hn ⊢
@@ -58,72 +321,126 @@ theorem ct_sub {T : List String} {cur n : String} (hT : T.getLast? = some cur) (
     intro hn F hF
     obtain ⟨G, rfl⟩ : ∃ G, F = G + 1 := ⟨F - 1, by simp [Expr.size] at hF; omega⟩
     simp only [Expr.size] at hF
-    simp only [lm, List.mem_append] at hn
+    simp only [lmS, List.mem_append] at hn
     simp only [checkExpr]
     rcases hn with hn | hn
     · simp [iha hn G (by omega)]
     · simp [ihb hn G (by omega)]
-  | rep a ih | repOnce a ih | opt a ih | posPred a ih | negPred a ih | push a ih
-  | repExact a k ih | repMin a k ih | repMax a k ih | repMinMax a lo hi ih =>
+  | rep a ih | repOnce a ih | opt a ih | posPred a ih | negPred a ih | push a ih | repMin a k ih =>
     intro hn F hF
     obtain ⟨G, rfl⟩ : ∃ G, F = G + 1 := ⟨F - 1, by simp [Expr.size] at hF; omega⟩
     simp only [Expr.size] at hF
-    simp only [lm] at hn
+    simp only [lmS] at hn
     simp only [checkExpr]
     exact ih hn G (by omega)
+  | repExact a k ih =>
+    intro hn F hF
+    obtain ⟨G, rfl⟩ : ∃ G, F = G + 1 := ⟨F - 1, by simp [Expr.size] at hF; omega⟩
+    simp only [Expr.size] at hF
+    simp only [lmS, List.mem_append] at hn
+    rw [checkExpr_repExact extras rules G sk a k hT]
+    rcases hn with hn | hn
+    · simp [ih hn G (by omega)]
+    · split at hn
+      · rename_i hcond
+        simp only [Bool.and_eq_true] at hcond
+        obtain ⟨⟨h2, hx⟩, hsk⟩ := hcond
+        subst hsk
+        have h1 := hc (G + 1) (by simp only [Expr.size]; omega)
+        rw [checkExpr_ident] at h1
+        simp [implF_of_mem hn h1, h2, hx]
+      · simp at hn
+  | repMax a k ih =>
+    intro hn F hF
+    obtain ⟨G, rfl⟩ : ∃ G, F = G + 1 := ⟨F - 1, by simp [Expr.size] at hF; omega⟩
+    simp only [Expr.size] at hF
+    simp only [lmS, List.mem_append] at hn
+    rw [checkExpr_repMax]
+    rcases hn with hn | hn
+    · simp [ih hn G (by omega)]
+    · split at hn
+      · rename_i hcond
+        simp only [Bool.and_eq_true] at hcond
+        obtain ⟨h2, hsk⟩ := hcond
+        subst hsk
+        have h1 := hc (G + 1) (by simp only [Expr.size]; omega)
+        rw [checkExpr_ident] at h1
+        simp [implF_of_mem hn h1, h2]
+      · simp at hn
+  | repMinMax a lo hi ih =>
+    intro hn F hF
+    obtain ⟨G, rfl⟩ : ∃ G, F = G + 1 := ⟨F - 1, by simp [Expr.size] at hF; omega⟩
+    simp only [Expr.size] at hF
+    simp only [lmS, List.mem_append] at hn
+    rw [checkExpr_repMinMax extras rules G sk a lo hi hT]
+    rcases hn with hn | hn
+    · simp [ih hn G (by omega)]
+    · split at hn
+      · rename_i hcond
+        simp only [Bool.and_eq_true] at hcond
+        obtain ⟨⟨h2, hx⟩, hsk⟩ := hcond
+        subst hsk
+        have h1 := hc (G + 1) (by simp only [Expr.size]; omega)
+        rw [checkExpr_ident] at h1
+        rw [implF_of_mem hn h1, h2, hx]
+        simp
+      · simp at hn
   | nodeTag a t ih =>
     intro hn F hF
     obtain ⟨G, rfl⟩ : ∃ G, F = G + 1 := ⟨F - 1, by simp [Expr.size] at hF; omega⟩
     simp only [Expr.size] at hF
-    simp only [lm] at hn
+    simp only [lmS] at hn
     simp only [checkExpr]
     cases extras
     · simp at hn
     · simp only [if_true] at hn ⊢
       exact ih hn G (by omega)
-  | _ => intro hn; simp [lm] at hn
+  | _ => intro hn; simp [lmS] at hn
 
 /-- `a → p₁ → … → pₖ = b` in the graph. -/
-def Path (extras : Bool) (rules : List Rule) : String → List String → String → Prop
+def Path (extras : Bool) (rules : List Rule) : Key → List Key → Key → Prop
   | a, [], b => a = b
-  | a, p :: ps, b => E extras rules a p ∧ Path extras rules p ps b
+  | a, p :: ps, b => E2 extras rules a p ∧ Path extras rules p ps b
 
-theorem path_snoc {a b n : String} {ps : List String} (h : Path extras rules a ps b) (he : E extras rules b n) :
+theorem path_snoc {a b n : Key} {ps : List Key} (h : Path extras rules a ps b) (he : E2 extras rules b n) :
     Path extras rules a (ps ++ [n]) n := by
   induction ps generalizing a with
   | nil => simp only [Path] at h; subst h; exact ⟨he, rfl⟩
   | cons p ps ih => exact ⟨h.1, ih h.2⟩
 
-theorem path_hasBody {a b h : String} {ps : List String} (hp : Path extras rules a ps b) (he : E extras rules b h) :
-    ∃ body, lookup rules a = some body := by
-  cases ps with
-  | nil => simp only [Path] at hp; subst hp; obtain ⟨body, hb, _⟩ := he; exact ⟨body, hb⟩
-  | cons p ps => obtain ⟨body, hb, _⟩ := hp.1; exact ⟨body, hb⟩
+theorem e2_hasBody {a b : Key} (he : E2 extras rules a b) : ∃ body, lookup rules a.1 = some body := by
+  obtain ⟨n, ⟨body, hb, _⟩, _⟩ := he
+  exact ⟨body, hb⟩
 
-/-- the check follows a simple path back to the rule under test. -/
-theorem follow {cur h : String} (he : E extras rules cur h) :
-    ∀ (ps : List String) (a : String) (T : List String) (body : Expr), Path extras rules a ps cur →
-      T.getLast? = some a → T.head? = some h → (∀ p ∈ ps, p ∉ T) → ps.Nodup → lookup rules a = some body →
-      CT extras rules body T := by
+theorem path_hasBody {a b h : Key} {ps : List Key} (hp : Path extras rules a ps b) (he : E2 extras rules b h) :
+    ∃ body, lookup rules a.1 = some body := by
+  cases ps with
+  | nil => simp only [Path] at hp; subst hp; exact e2_hasBody he
+  | cons p ps => exact e2_hasBody hp.1
+
+/-- the check follows a simple path back to the pair under test. -/
+theorem follow {cur h : Key} (he : E2 extras rules cur h) :
+    ∀ (ps : List Key) (a : Key) (T : List Key) (body : Expr), Path extras rules a ps cur →
+      T.getLast? = some a → T.head? = some h → (∀ p ∈ ps, p ∉ T) → ps.Nodup → lookup rules a.1 = some body →
+      CT extras rules body T a.2 := by
   intro ps
   induction ps with
   | nil =>
     intro a T body hp hl hh _ _ hb
     simp only [Path] at hp
     subst hp
-    obtain ⟨body', hb', hm⟩ := he
+    obtain ⟨n, ⟨body', hb', hm⟩, hk⟩ := he
     rw [hb] at hb'
     cases hb'
-    exact ct_sub hl (ct_ident_head hh) body hm
+    exact ct_sub (cur := a.1) (skc := a.2) hl (ct_ident_head (by rw [hh, hk])) body hm
   | cons p ps ih =>
     intro a T body hp hl hh hnot hnd hb
-    obtain ⟨⟨body', hb', hm⟩, hp2⟩ := hp
+    obtain ⟨⟨n, ⟨body', hb', hm⟩, hk⟩, hp2⟩ := hp
     rw [hb] at hb'
     cases hb'
     obtain ⟨bp, hbp⟩ := path_hasBody hp2 he
     have hpT : p ∉ T := hnot p (by simp)
-    have hne : T ≠ [] := by intro h0; rw [h0] at hh; simp at hh
-    have h1 : CT extras rules bp (T ++ [p]) := by
+    have h1 : CT extras rules bp (T ++ [p]) p.2 := by
       refine ih p (T ++ [p]) bp hp2 (by simp) ?_ ?_ (List.nodup_cons.1 hnd).2 hbp
       · rw [List.head?_append]; rw [hh]; rfl
       · intro q hq
@@ -132,35 +449,41 @@ theorem follow {cur h : String} (he : E extras rules cur h) :
         intro hqp
         subst hqp
         exact (List.nodup_cons.1 hnd).1 hq
-    exact ct_sub hl (ct_ident_step hpT hbp h1) body hm
+    subst hk
+    exact ct_sub (cur := a.1) (skc := a.2) hl (ct_ident_step hpT hbp h1) body hm
 
 /-- accepted grammars have no simple cycle. -/
-theorem no_simple_cycle (hv : leftRecursion extras rules = []) {h cur : String} {ps : List String}
-    (hp : Path extras rules h ps cur) (he : E extras rules cur h) (hnd : (h :: ps).Nodup) : False := by
+theorem no_simple_cycle (hv : leftRecursion extras rules = []) {h cur : Key} {ps : List Key}
+    (hp : Path extras rules h ps cur) (he : E2 extras rules cur h) (hnd : (h :: ps).Nodup) : False := by
   obtain ⟨body, hb⟩ := path_hasBody hp he
   have hct := follow he ps h [h] body hp rfl rfl
     (by intro p hp' hc; simp only [List.mem_singleton] at hc; subst hc; exact (List.nodup_cons.1 hnd).1 hp')
     (List.nodup_cons.1 hnd).2 hb
   obtain ⟨r, hr, hrn, hrb⟩ := lookup_some_mem hb
+  obtain ⟨n, _, hk⟩ := he
   subst hrb
-  subst hrn
   unfold leftRecursion at hv
   rw [List.filterMap_eq_nil_iff] at hv
   have h1 := hv r hr
-  have h2 := hct (rulesSize rules + r.expr.size + 2) (by
-    have := rem_lt_rulesSize rules [r.name]
+  have h2 := hct (2 * rulesSize rules + r.expr.size + 2) (by
+    have := rem2_lt_rulesSize rules [h]
     omega)
-  rw [h2] at h1
-  simp at h1
+  have hh : h = (r.name, skipsInside rules r.name cur.2) := by
+    rw [hk]; simp only [key]; rw [hk] at hrn; simp only at hrn; rw [hrn]
+  rw [hh] at h2
+  simp only [] at h1
+  cases hc : cur.2 with
+  | true => rw [hc] at h2; simp only [] at h2; rw [h2] at h1; simp at h1
+  | false => rw [hc] at h2; simp only [] at h2; rw [h2] at h1; simp at h1
 
 /-! ### well-foundedness -/
 
-/-- number of names not yet on the chain. -/
-def cnt : List String → List String → Nat
+/-- number of pairs not yet on the chain. -/
+def cnt : List Key → List Key → Nat
   | [], _ => 0
   | x :: xs, V => (if x ∈ V then 0 else 1) + cnt xs V
 
-theorem cnt_le (L V : List String) (a : String) : cnt L (a :: V) ≤ cnt L V := by
+theorem cnt_le (L V : List Key) (a : Key) : cnt L (a :: V) ≤ cnt L V := by
   induction L with
   | nil => simp [cnt]
   | cons x xs ih =>
@@ -171,7 +494,7 @@ theorem cnt_le (L V : List String) (a : String) : cnt L (a :: V) ≤ cnt L V := 
       · simp [h2]; omega
       · simp [h1, h2, ih]
 
-theorem cnt_lt (L V : List String) (a : String) (haL : a ∈ L) (haV : a ∉ V) : cnt L (a :: V) < cnt L V := by
+theorem cnt_lt (L V : List Key) (a : Key) (haL : a ∈ L) (haV : a ∉ V) : cnt L (a :: V) < cnt L V := by
   induction L with
   | nil => simp at haL
   | cons x xs ih =>
@@ -189,32 +512,43 @@ theorem cnt_lt (L V : List String) (a : String) (haL : a ∈ L) (haV : a ∉ V) 
       · simp [h1, this]
       · simp [h1, hxa, this]
 
+/-- all pairs of defined rules. -/
+def allKeys (rules : List Rule) : List Key := rules.flatMap fun r => [(r.name, true), (r.name, false)]
+
+theorem mem_allKeys {p : Key} {body : Expr} (hb : lookup rules p.1 = some body) : p ∈ allKeys rules := by
+  obtain ⟨r, hr, hrn, _⟩ := lookup_some_mem hb
+  unfold allKeys
+  rw [List.mem_flatMap]
+  refine ⟨r, hr, ?_⟩
+  obtain ⟨a, b⟩ := p
+  simp only at hrn
+  subst hrn
+  cases b <;> simp
+
 /-- the chain invariant of the search for a cycle. -/
-def ChainInv (extras : Bool) (rules : List Rule) (V : List String) (cur : String) : Prop :=
+def ChainInv (extras : Bool) (rules : List Rule) (V : List Key) (cur : Key) : Prop :=
   cur ∉ V ∧ ∀ h ∈ V, ∃ ps, Path extras rules h ps cur ∧ (h :: ps).Nodup ∧ ∀ p ∈ ps, p ∈ V ∨ p = cur
 
 theorem acc_aux (hv : leftRecursion extras rules = []) :
-    ∀ (k : Nat) (V : List String) (cur : String), ChainInv extras rules V cur →
-      cnt (rules.map (·.name)) V ≤ k → (lookup rules cur).isSome = true →
-      Acc (fun b a => E extras rules a b) cur := by
+    ∀ (k : Nat) (V : List Key) (cur : Key), ChainInv extras rules V cur →
+      cnt (allKeys rules) V ≤ k → (lookup rules cur.1).isSome = true →
+      Acc (fun b a => E2 extras rules a b) cur := by
   intro k
   induction k with
   | zero =>
     intro V cur hinv hk hsome
     obtain ⟨body, hb⟩ := Option.isSome_iff_exists.1 hsome
-    obtain ⟨r, hr, hrn, _⟩ := lookup_some_mem hb
-    have hcur : cur ∈ rules.map (·.name) := List.mem_map.2 ⟨r, hr, hrn⟩
-    have := cnt_lt (rules.map (·.name)) V cur hcur hinv.1
+    have hcur : cur ∈ allKeys rules := mem_allKeys hb
+    have := cnt_lt (allKeys rules) V cur hcur hinv.1
     omega
   | succ k ih =>
     intro V cur hinv hk hsome
     obtain ⟨body, hb⟩ := Option.isSome_iff_exists.1 hsome
-    obtain ⟨r, hr, hrn, _⟩ := lookup_some_mem hb
     refine Acc.intro cur (fun n hE => ?_)
-    cases hln : lookup rules n with
+    cases hln : lookup rules n.1 with
     | none =>
       refine Acc.intro n (fun m hm => ?_)
-      obtain ⟨b', hb', _⟩ := hm
+      obtain ⟨b', hb'⟩ := e2_hasBody hm
       rw [hln] at hb'; cases hb'
     | some bn =>
       by_cases hnc : n = cur
@@ -253,19 +587,86 @@ theorem acc_aux (hv : leftRecursion extras rules = []) :
               · exact Or.inl (List.mem_cons_of_mem _ h1)
               · exact Or.inl (by rw [h1]; exact List.mem_cons_self)
             · exact Or.inr hp
-      · have hcur : cur ∈ rules.map (·.name) := List.mem_map.2 ⟨r, hr, hrn⟩
-        have := cnt_lt (rules.map (·.name)) V cur hcur hinv.1
+      · have hcur : cur ∈ allKeys rules := mem_allKeys hb
+        have := cnt_lt (allKeys rules) V cur hcur hinv.1
         omega
 
 /-- **the left-recursion graph of an accepted grammar is well founded.** -/
-theorem acc_all (hv : leftRecursion extras rules = []) (r : String) : Acc (fun b a => E extras rules a b) r := by
-  cases hl : lookup rules r with
+theorem acc_all (hv : leftRecursion extras rules = []) (p : Key) : Acc (fun b a => E2 extras rules a b) p := by
+  cases hl : lookup rules p.1 with
   | none =>
-    refine Acc.intro r (fun m hm => ?_)
-    obtain ⟨b', hb', _⟩ := hm
+    refine Acc.intro p (fun m hm => ?_)
+    obtain ⟨b', hb'⟩ := e2_hasBody hm
     rw [hl] at hb'; cases hb'
   | some body =>
-    exact acc_aux hv _ [] r ⟨by simp, by simp⟩ (Nat.le_refl _) (by simp [hl])
+    exact acc_aux hv _ [] p ⟨by simp, by simp⟩ (Nat.le_refl _) (by simp [hl])
+
+theorem acc_irrefl {α : Type} {r : α → α → Prop} {a : α} (h : Acc r a) : ¬ r a a := by
+  induction h with
+  | intro x _ ih => intro hx; exact ih x hx hx
+
+/-! ### the name graph: every chain of rule references lifts to the pairs -/
+
+theorem skipsInside_cases (rules : List Rule) (n : String) :
+    (∀ sk, skipsInside rules n sk = sk) ∨ (∃ k, ∀ sk, skipsInside rules n sk = k) := by
+  unfold skipsInside
+  split
+  · exact Or.inr ⟨false, fun _ => rfl⟩
+  · split
+    · exact Or.inr ⟨false, fun _ => rfl⟩
+    · exact Or.inr ⟨false, fun _ => rfl⟩
+    · exact Or.inr ⟨true, fun _ => rfl⟩
+    · exact Or.inl (fun _ => rfl)
+
+theorem e_lift {a b : String} (h : E extras rules a b) (sk : Bool) :
+    E2 extras rules (a, sk) (b, skipsInside rules b sk) := by
+  obtain ⟨body, hb, hm⟩ := h
+  exact ⟨b, ⟨body, hb, lm_sub_lmS extras rules a sk body b hm⟩, rfl⟩
+
+/-- a chain of rule references changes the skipping flag by the identity or a constant. -/
+theorem transGen_lift {a b : String} (h : Relation.TransGen (fun y x => E extras rules x y) b a) :
+    (∀ sk, Relation.TransGen (fun q p => E2 extras rules p q) (b, sk) (a, sk)) ∨
+    (∃ k, ∀ sk, Relation.TransGen (fun q p => E2 extras rules p q) (b, k) (a, sk)) := by
+  induction h with
+  | single hE =>
+    rename_i a
+    rcases skipsInside_cases rules b with hs | ⟨k, hs⟩
+    · left
+      intro sk
+      have := e_lift hE sk
+      rw [hs] at this
+      exact .single this
+    · right
+      refine ⟨k, fun sk => ?_⟩
+      have := e_lift hE sk
+      rw [hs] at this
+      exact .single this
+  | tail hchain hE ih =>
+    rename_i x a
+    -- edge `a → x`, then the chain `x → … → b`
+    rcases ih with ih | ⟨k, ih⟩
+    · rcases skipsInside_cases rules x with hs | ⟨k, hs⟩
+      · left
+        intro sk
+        have := e_lift hE sk
+        rw [hs] at this
+        exact .tail (ih sk) this
+      · right
+        refine ⟨k, fun sk => ?_⟩
+        have := e_lift hE sk
+        rw [hs] at this
+        exact .tail (ih k) this
+    · right
+      refine ⟨k, fun sk => ?_⟩
+      exact .tail (ih _) (e_lift hE sk)
+
+/-- the name graph of an accepted grammar has no cycle. -/
+theorem no_name_cycle (hv : leftRecursion extras rules = []) {a : String} :
+    ¬ Relation.TransGen (fun y x => E extras rules x y) a a := by
+  intro h
+  rcases transGen_lift h with h1 | ⟨k, h1⟩
+  · exact acc_irrefl (acc_all hv (a, false)).transGen (h1 false)
+  · exact acc_irrefl (acc_all hv (a, k)).transGen (h1 k)
 
 /-- reachability along visited positions is a chain of edges. -/
 theorem creach_transGen {cur : String} {e : Expr} {id : String}
@@ -276,15 +677,11 @@ theorem creach_transGen {cur : String} {e : Expr} {id : String}
   | step hm hl _ ih =>
     exact .tail (ih (fun n hn => ⟨_, hl, hn⟩)) (hcl _ hm)
 
-theorem acc_irrefl {α : Type} {r : α → α → Prop} {a : α} (h : Acc r a) : ¬ r a a := by
-  induction h with
-  | intro x _ ih => intro hx; exact ih x hx hx
-
 /-- no rule reaches itself. -/
 theorem no_cycle (hv : leftRecursion extras rules = []) {cur : String} {e : Expr}
     (hcl : ∀ n ∈ lm extras rules cur e, E extras rules cur n) : ¬ CReach extras rules cur e cur := by
   intro h
-  exact acc_irrefl (acc_all hv cur).transGen (creach_transGen hcl h)
+  exact no_name_cycle hv (creach_transGen hcl h)
 
 end
 end PestModel.V
